@@ -9,7 +9,7 @@ func withCleans(m *PktModel, max uint64) *PktModel {
 }
 
 // CheckC02: exactly-once delivery; fresh committed packets are accepted.
-func CheckC02(tier string) int {
+func modelsC02(tier string) ([]*PktModel, []int) {
 	props := map[string]bool{"C02": true}
 	models := []*PktModel{core2("core2", props, "try"), core3("core3", props, "try"), withCleans(core2("core2-cleans", props, "try"), 3)}
 	depth := []int{7, 6, 8}
@@ -18,6 +18,12 @@ func CheckC02(tier string) int {
 		models = append(models, withCleans(core3("core3-cleans", props, "try"), 2))
 		depth = append(depth, 9)
 	}
+	return models, depth
+}
+
+func CheckC02(tier string) int {
+	models, depth := modelsC02(tier)
+
 	return RunPkt("C02", tier, models, depth, tierBudget(tier, 90*time.Second, 15*time.Minute), append([]string{
 		"safety: ghost counters of successful MsgRecvPacket per (chain, source, destination, sequence) and of destination application callbacks never exceed 1 on any path; every previously delivered or cleaned packet is re-submitted with a fresh, current proof in every later state and must be rejected",
 		"liveness sentence: every honest relay transition the model enables (previous hop holds the commitment, no receipt, sequence above the clean point) must return code 0",
@@ -25,7 +31,7 @@ func CheckC02(tier string) int {
 }
 
 // CheckC03: acknowledgements authentic, once, never overwritten.
-func CheckC03(tier string) int {
+func modelsC03(tier string) ([]*PktModel, []int) {
 	props := map[string]bool{"C03": true}
 	models := []*PktModel{core2("core2", props, "try"), core3("core3", props, "try")}
 	depth := []int{7, 6}
@@ -34,6 +40,12 @@ func CheckC03(tier string) int {
 		models = append(models, withCleans(core2("core2-cleans", props, "try"), 3))
 		depth = append(depth, 10)
 	}
+	return models, depth
+}
+
+func CheckC03(tier string) int {
+	models, depth := modelsC03(tier)
+
 	return RunPkt("C03", tier, models, depth, tierBudget(tier, 90*time.Second, 15*time.Minute), append([]string{
 		"an acknowledgement message is legitimate iff the receiving chain still holds sha256(data) at the packet's commitment key and the chain the packet's fields select as next hop stores sha256(ack bytes) at the packet's ack key, proven at its newest height; everything else in the probe menu must be rejected",
 		"step oracles: at most one successful acknowledgement per packet and chain, commitment deleted on success, recorded ack hash equals sha256 of the bytes the application returned (write_acknowledgement event), ack keys never change value",
@@ -41,7 +53,7 @@ func CheckC03(tier string) int {
 }
 
 // CheckC13: no redirection of port / relay chain.
-func CheckC13(tier string) int {
+func modelsC13(tier string) ([]*PktModel, []int) {
 	props := map[string]bool{"C13": true}
 	core4 := core3("core4", props, "try")
 	core4.Names = []string{A, B, C, D}
@@ -51,7 +63,25 @@ func CheckC13(tier string) int {
 	if tier == "thorough" {
 		depth = []int{9, 9, 7, 7}
 	}
+	return models, depth
+}
+
+func CheckC13(tier string) int {
+	models, depth := modelsC13(tier)
+
 	return RunPkt("C13", tier, models, depth, tierBudget(tier, 100*time.Second, 15*time.Minute), append([]string{
 		"for every packet the source announced (mock-port packets and NFT transfers, direct and relayed, on 2, 3 and 4 chains), every receive and acknowledgement message that presents it with another port or an added/removed/replaced relay chain, with the proof the altered packet's own previous hop produces, must be rejected in every reachable state on every chain",
 	}, commonAssumptions...))
+}
+
+func init() {
+	PktRegistry["C02"] = func(tier string) []*PktModel { m, _ := modelsC02(tier); return m }
+}
+
+func init() {
+	PktRegistry["C03"] = func(tier string) []*PktModel { m, _ := modelsC03(tier); return m }
+}
+
+func init() {
+	PktRegistry["C13"] = func(tier string) []*PktModel { m, _ := modelsC13(tier); return m }
 }
